@@ -540,7 +540,189 @@ def gen_ce(g):
                                   " ".join("%d %d %d %d %s" % (r + (tok(cg),)) for r, cg in regions))
 
 
-GEN = {"ED": gen_ed, "EF": gen_ef, "CE": gen_ce}
+# ------------------------------------------------------------------ sequences on ONE circuit object (SQ)
+def setup_rows(a, b, c, d, rh, alt, init):
+    """Circuit::setupRows"""
+    rows, orient, y = [], bool(init), c
+    while y + rh <= d:
+        rows.append((a, b, y, y + rh, 0 if orient else 5))   # N / FS
+        if alt:
+            orient = not orient
+        y += rh
+    return rows
+
+
+def _span(rows, cells):
+    xs = [r[0] for r in rows] + [r[1] for r in rows]
+    ys = [r[2] for r in rows] + [r[3] for r in rows]
+    if not xs:
+        xs = [c[0] for c in cells] + [0, 40]
+        ys = [c[1] for c in cells] + [0, 8]
+    return min(xs), max(xs), min(ys), max(ys)
+
+
+def _spot(g, hr, sc, rows, cells, parked):
+    """a position on the rows (covering free area) or beside them"""
+    lox, hix, loy, hiy = _span(rows, cells)
+    if parked or not rows:
+        return hix + sc * g.uni(0, 50), loy + hr * g.uni(-1, 3)
+    r = g.choice(rows)
+    return r[0] + sc * g.uni(-6, max(0, (r[1] - r[0]) // sc)), r[2] - hr * g.uni(0, 2) + (sc * g.uni(0, 3) if g.coin(15) else 0)
+
+
+def gen_setter(g, hr, sc, rows, cells):
+    """one public setter (or a copy of the object): (operation text, rows, cells) after it"""
+    n = len(cells)
+    fixed = [i for i, c in enumerate(cells) if c[5]]
+    fobs = [i for i, c in enumerate(cells) if c[5] and c[6]]
+    cells = list(cells)
+    k = g.uni(0, 99)
+    if n == 0 and k < 86:
+        k = 86 + k % 14
+    if k < 45:
+        # setSolution: fixed cells / obstructions moved onto the rows, away from them, turned; movable cells moved
+        idx = set()
+        if k < 35 and fixed:
+            for _ in range(g.uni(1, 2)):
+                idx.add(g.choice(fobs) if fobs and g.coin(80) else g.choice(fixed))
+        for _ in range(g.uni(0 if idx else 1, 2)):
+            idx.add(g.uni(0, n - 1))
+        parts = []
+        for i in sorted(idx):
+            x, y, w, h, o, fx, ob = cells[i]
+            nx_, ny = _spot(g, hr, sc, rows, cells, g.coin(30))
+            no = g.uni(0, 7) if g.coin(30) else o
+            if g.coin(10):
+                nx_, ny = x, y
+            cells[i] = (nx_, ny, w, h, no, fx, ob)
+            parts.append("%d %d %d %d" % (i, nx_, ny, no))
+        return "3 %d %s" % (len(parts), " ".join(parts)), rows, cells
+    if k < 86:
+        i = g.choice(fixed) if fixed and g.coin(70) else g.uni(0, n - 1)
+        x, y, w, h, o, fx, ob = cells[i]
+        if k < 53:
+            op, v = 4, _spot(g, hr, sc, rows, cells, g.coin(30))[0]
+            cells[i] = (v, y, w, h, o, fx, ob)
+        elif k < 60:
+            op, v = 5, _spot(g, hr, sc, rows, cells, False)[1]
+            cells[i] = (x, v, w, h, o, fx, ob)
+        elif k < 66:
+            op, v = 6, g.uni(0, 7)
+            cells[i] = (x, y, w, h, v, fx, ob)
+        elif k < 72:
+            op, v = 8, 1 - ob
+            cells[i] = (x, y, w, h, o, fx, v)
+        elif k < 77:
+            i = g.uni(0, n - 1)
+            x, y, w, h, o, fx, ob = cells[i]
+            op, v = 7, 1 - fx
+            cells[i] = (x, y, w, h, o, v, ob)
+        elif k < 82:
+            op, v = 9, sc * g.uni(0, 40)
+            cells[i] = (x, y, v, h, o, fx, ob)
+        else:
+            op, v = 10, hr * g.uni(0, 3)
+            cells[i] = (x, y, w, v, o, fx, ob)
+        return "%d 1 %d %d" % (op, i, v), rows, cells
+    if k < 92:
+        rows = list(rows)
+        j = g.uni(0, 4)
+        if j == 0 and len(rows) > 1:
+            del rows[g.uni(0, len(rows) - 1)]
+        elif j <= 2 and rows:
+            q = g.uni(0, len(rows) - 1)
+            a, b, c, d, o = rows[q]
+            a, b = a + sc * g.uni(-4, 4), b + sc * g.uni(-8, 8)
+            # rows stay well-formed (minX <= maxX) and pairwise disjoint, as everywhere in this file (domain of the C15 contract)
+            if a <= b and not any(j != q and intersects((a, b, c, d), r[:4]) for j, r in enumerate(rows)):
+                rows[q] = (a, b, c, d, o)
+        else:
+            lox, hix, loy, hiy = _span(rows, cells)
+            a = lox + sc * g.uni(0, 8)
+            rows.append((a, max(a, hix + sc * g.uni(-8, 16)), hiy, hiy + hr, g.uni(0, 7)))
+        return "11 %d %s" % (len(rows), " ".join("%d %d %d %d %d" % r for r in rows)), rows, cells
+    if k < 95:
+        lox, hix, loy, hiy = _span(rows, cells)
+        a, c, d = lox + sc * g.uni(-2, 4), loy, hiy + hr * g.uni(0, 1)
+        b = max(a, hix + sc * g.uni(-4, 8))
+        alt, init = int(g.coin(50)), int(g.coin(50))
+        return "12 %d %d %d %d %d %d %d" % (a, b, c, d, hr, alt, init), setup_rows(a, b, c, d, hr, alt, init), cells
+    return "13", rows, cells
+
+
+def gen_sq(g):
+    """expansion, public setters, expansion with (mostly) the same margin, ...: the calls follow each other on one object"""
+    hr, rows, cells = gen_circuit(g)
+    sc = 1
+    lox, hix, loy, hiy = _span(rows, cells)
+    have = any(c[5] and c[6] for c in cells)
+    for _ in range(g.uni(0 if have else 1, 2)):
+        # a macro (fixed obstruction), parked beside the rows or standing on them
+        w, h = g.uni(1, 40), hr * g.uni(1, 3)
+        x, y = _spot(g, hr, 1, rows, cells, g.coin(60))
+        cells.insert(g.uni(0, len(cells)), (x, y, w, h, g.uni(0, 7), 1, 1))
+    m = gen_margin(g)
+    if g.coin(50):
+        tune_rows(g, hr, rows, cells, m)
+    if g.coin(8):
+        sc = g.choice([8, 64])
+        rows, cells = scale_circuit(rows, cells, sc)
+        hr *= sc
+    head = case_circuit(rows, cells)
+    ops = []
+    for e in range(g.uni(2, 4)):
+        if e:
+            newm = g.coin(15)    # another margin now and then, also directly after the previous call
+            for _ in range(g.uni(0, 1) if newm else g.uni(1, 3)):
+                txt, rows, cells = gen_setter(g, hr, sc, rows, cells)
+                ops.append(txt)
+            if newm:
+                m = gen_margin(g)
+        ra, _, _ = row_area(free_rows(rows, cells), m)
+        ca = movable_area(cells)
+        if g.coin(60):
+            t = None
+            if ca > 0 and ra > 0:
+                d = F(ca, ra)
+                k = g.uni(0, 9)
+                if k <= 7:
+                    t = d * (1 + F(g.uni(1, 24), g.choice([4, 8, 16, 32])))
+                    if t >= 1:
+                        t = d * (1 + F(g.uni(1, 8), 64))
+                    if t >= 1:
+                        t = None
+                elif k == 8:
+                    t = d * F(g.uni(4, 8), 8)
+            if t is None or t <= 0:
+                t = F(g.uni(1, 63), 64)
+            t = dbl(t)
+            mew = g.choice([F(1), F(1), F(1), F(1), F(2), F(1, 2), F(1, 4), F(3, 2)])
+            ops.append("1 %s %s %s" % (tok(t), tok(m), tok(mew)))
+            w = oracle_ed(t, m, mew, rows, cells)["widths"]
+        else:
+            es = [F(1) if g.coin(40) else 1 + F(g.uni(1, 16), 8) for _ in cells]
+            if es and g.coin(2):
+                es[g.uni(0, len(es) - 1)] = F(1, 2)
+            o = oracle_ef(es, F(1), m, rows, cells)
+            maxd = F(1)
+            if not o["throw"] and ca > 0 and ra > 0:
+                d, ed = F(ca, ra), F(o["ea"], ra)
+                k = g.uni(0, 9)
+                if k <= 4 and ed > d:
+                    maxd = d + F(g.uni(1, 7), 8) * (ed - d)
+                elif k == 5:
+                    maxd = F(g.uni(1, 64), 64)
+                elif k == 6:
+                    maxd = g.choice([ed, d])
+            maxd = dbl(maxd)
+            ops.append("2 %s %s %d %s" % (tok(maxd), tok(m), len(es), " ".join(tok(x) for x in es)))
+            o = oracle_ef(es, maxd, m, rows, cells)
+            w = [c[2] for c in cells] if o["throw"] else o["widths"]
+        cells = [c[:2] + (w[i],) + c[3:] for i, c in enumerate(cells)]
+    return "SQ %s %d %s" % (head, len(ops), " ".join(ops))
+
+
+GEN = {"ED": gen_ed, "EF": gen_ef, "CE": gen_ce, "SQ": gen_sq}
 BLOCK = 1000
 
 
@@ -879,6 +1061,90 @@ def evaluate(lines, impl, model):
     return [x for r in res for x in r]
 
 
+# ------------------------------------------------------------------ sequences on one object: run and judge
+def gen_sq_cases(seed, n):
+    from multiprocessing import Pool
+    jobs = [(seed, "SQ", b, min(BLOCK, n - b * BLOCK)) for b in range((n + BLOCK - 1) // BLOCK)]
+    if not jobs:
+        return []
+    with Pool(min(common.NCPU, len(jobs))) as p:
+        res = p.map(_gen_block, jobs)
+    return [l for r in res for l in r]
+
+
+def split_sequence(out):
+    """harness result line of an SQ case -> list of (single-call case line, result of the object with history, result of the fresh circuit)"""
+    steps = []
+    for part in out.split(" ;; "):
+        if part.startswith("SETTER-THROW") or not part.strip():
+            continue
+        f = part.split(" => ")
+        if len(f) != 3 or f[0][:3] not in ("ED ", "EF "):
+            return None
+        steps.append((f[0], f[1], f[2]))
+    return steps
+
+
+def run_sequences(harness, driver, sq_lines):
+    """every expansion call of every sequence is judged as a single-call case on the public state just before it:
+    statement oracle and tie with the model on the result of the OBJECT WITH HISTORY, which must also be
+    identical (row area, widths, returned double bit for bit) to the result of a fresh circuit with the same public
+    state -- built inside the sequence process and once more in another process.
+    returns (stats, stmt, hist, diff, orc): lists of dicts describing concrete sequences"""
+    stats = {"sequences": len(sq_lines), "expansion_calls": 0, "calls_that_change_a_width": 0, "sequences_with_two_changing_calls": 0,
+             "setter_throws": 0, "calls_after_a_setter_that_changed_the_available_area": 0}
+    stmt, hist, diff, orc = [], [], [], []
+    if not sq_lines:
+        return stats, stmt, hist, diff, orc, set()
+    out, _, _ = common.run_both([harness, "run"], None, sq_lines, chunk=400)
+    flat = []      # (sequence index, step index, case line, hist, fresh)
+    for qi, (ql, o) in enumerate(zip(sq_lines, out)):
+        if o.startswith("SKIPPED"):
+            continue
+        steps = split_sequence(o)
+        if steps is None:
+            stmt.append({"case": ql, "why": "no result (abort/crash/timeout) for the sequence: " + o[:300], "implementation_output": o[:600]})
+            continue
+        if "SETTER-THROW" in o:
+            stats["setter_throws"] += 1
+            diff.append({"case": ql, "why": "a public setter of the sequence threw: " + o[o.index("SETTER-THROW"):][:200]})
+        for si, (dl, rh, rf) in enumerate(steps):
+            flat.append((qi, si, dl, rh, rf))
+    dlines = [f[2] for f in flat]
+    impl2, model, _ = common.run_both([harness, "run"], [driver], dlines, chunk=1500)
+    res = evaluate(dlines, [f[3] for f in flat], model)
+    changing = {}
+    prev_ra = {}
+    nontriv = set()
+    for (qi, si, dl, rh, rf), i2, ml, (s, d, o, cls, nt, mdl, tg) in zip(flat, impl2, model, res):
+        stats["expansion_calls"] += 1
+        info = {"case": sq_lines[qi], "format": "see harness/expand.cpp (runSequence)", "expansion_call_number": si + 1,
+                "public_state_before_the_call_as_single_call_case": dl, "object_with_history": rh, "fresh_circuit_same_public_state": rf,
+                "model_output": ml}
+        if nt:
+            stats["calls_that_change_a_width"] += 1
+            changing[qi] = changing.get(qi, 0) + 1
+            nontriv.add(sq_lines[qi])
+        ra_now = ml.split()[0] if ml and ml[0].isdigit() else None
+        if si and ra_now is not None and prev_ra.get(qi) not in (None, ra_now):
+            stats["calls_after_a_setter_that_changed_the_available_area"] += 1
+        prev_ra[qi] = ra_now
+        if s:
+            stmt.append(dict(info, why="expansion call %d of the sequence: %s" % (si + 1, s)))
+        if rh != rf:
+            hist.append(dict(info, why="expansion call %d of the sequence: the object that went through the earlier calls gives %r, a fresh "
+                                       "circuit with the same public state gives %r" % (si + 1, rh[:200], rf[:200])))
+        elif rf != i2 and not i2.startswith("SKIPPED"):
+            diff.append(dict(info, why="the fresh circuit inside the sequence process gives %r, the same case in another process %r"
+                                       % (rf[:200], i2[:200])))
+        elif d:
+            diff.append(dict(info, why=d))
+        if o:
+            orc.append(dict(info, why=o))
+    stats["sequences_with_two_changing_calls"] = sum(1 for v in changing.values() if v >= 2)
+    return stats, stmt, hist, diff, orc, nontriv
+
+
 # ------------------------------------------------------------------ extraction cross-check inside Coq
 ORI = ["oN", "oS", "oW", "oE", "oFN", "oFS", "oFW", "oFE", "oINVALID", "oUNKNOWN"]
 
@@ -937,6 +1203,11 @@ def run(ctx):
     impl, model, errs = common.run_both([harness, "run"], [driver], lines, chunk=1500)
     res = evaluate(lines, impl, model)
     nvm, vmbad = vm_crosscheck(lines, model)
+    # sequences of calls on ONE Circuit object (state surviving between calls): every expansion call against a fresh circuit
+    sq_lines = common.corpus("C18", ("SQ ",))
+    for s in seeds:
+        sq_lines += gen_sq_cases(s, 4000 if ctx.quick else 20000)
+    sq_stats, sq_stmt, sq_hist, sq_diff, sq_orc, sq_nontriv = run_sequences(harness, driver, sq_lines)
     # floating-point tie: the compiled code against the Flocq binary64/binary32 model ExpandFloat.v, evaluated inside Coq
     import sys
     from checks import c18_float
@@ -967,7 +1238,21 @@ def run(ctx):
         ctx.violation("cell expansion of /repo violates C18: " + s,
                       {"case": line, "format": "see harness/expand.cpp header", "implementation_output": il,
                        "model_output": ml, "why": s})
-    if not stmt:
+    for v in sq_stmt[:3]:
+        ctx.violation("cell expansion of /repo violates C18 in a sequence of calls on one Circuit object: " + v["why"], v)
+    if not stmt and not sq_stmt:
+        if sq_hist:
+            ctx.violation("expansion depends on the earlier calls made on the Circuit object, not only on its public state (%d of %d expansion "
+                          "calls in sequences differ from a fresh circuit); no input violating C18 found; first: %s"
+                          % (len(sq_hist), sq_stats["expansion_calls"], sq_hist[0]["why"][:300]),
+                          {"broken": "correspondence of coq/Expand.v (the model is a function of the public state; theorems of Properties_C18.v)",
+                           "first_difference": sq_hist[0], "differences": len(sq_hist)}, found_input=False)
+        elif sq_diff or sq_orc:
+            w = (sq_diff or sq_orc)[0]
+            ctx.violation("sequences on one Circuit object: %d expansion calls differ from the model beyond the stated tolerance / %d oracle "
+                          "disagreements; no input violating C18 found; first: %s" % (len(sq_diff), len(sq_orc), w["why"][:300]),
+                          {"broken": "correspondence of coq/Expand.v (theorems of Properties_C18.v)" if sq_diff else "checks/c18.py oracle vs coq/Expand.v",
+                           "first_difference": w, "differences": len(sq_diff) + len(sq_orc)}, found_input=False)
         if diff:
             ctx.violation("correspondence Expand.v <-> src/coloquinte.cpp broken (%d of %d cases differ beyond the stated tolerance); "
                           "no input violating C18 found; first: %s" % (len(diff), len(lines), diff[0][3][:200]),
@@ -999,9 +1284,18 @@ def run(ctx):
             "floating point: the model is exact rational arithmetic; the C++ is compared exactly only on the cases where the exact oracle of "
             "checks/c18.py shows every intermediate result representable (class exact), with the stated tolerance otherwise",
             "boost::polygon (computeRows) enters through the C15 contract FreeSpace.v"],
-        "evaluations": len(lines), "distinct_nontrivial": len(nontriv),
-        "rule": "non-trivial = the expansion branch is taken and at least one width changes (ED, EF) / at least one cell gets a factor > 1 (CE); "
-                "distinct = distinct case lines",
+        "evaluations": len(lines) + sq_stats["expansion_calls"], "distinct_nontrivial": len(nontriv) + len(sq_nontriv),
+        "rule": "non-trivial = the expansion branch is taken and at least one width changes (ED, EF) / at least one cell gets a factor > 1 (CE) / "
+                "at least one expansion call of the sequence changes a width (SQ); distinct = distinct case lines; evaluations = single-call "
+                "cases + expansion calls inside sequences",
+        "sequences_on_one_object": dict(sq_stats, sample=(sq_lines[1] if len(sq_lines) > 1 else None),
+            differ_from_fresh_circuit=len(sq_hist), violate_statement=len(sq_stmt), differ_from_model=len(sq_diff),
+            what="SQ: 2-4 expansion calls (expandCellsToDensity 60% / expandCellsByFactor 40%, the margin redrawn before 15% of them) on ONE Circuit object with 1-3 (0-1 when the margin changes) "
+                 "public setters between them (setSolution moving/turning fixed cells and obstructions onto or off the rows 45%, setCellX/Y, "
+                 "setCellOrientation, setCellIsObstruction, setCellIsFixed, setCellWidth/Height, setRows, setupRows, copy of the object); before "
+                 "each call the public state is read back and a fresh circuit built from it: results must be identical (widths, returned "
+                 "double bit for bit), and the call is judged as a single-call case (statement oracle on the object with history, tie with "
+                 "the extracted model)"),
         "samples": [lines[ncorpus + 1], lines[ncorpus + ned + 1], lines[ncorpus + ned + nef + 1]],
         "kinds": kinds, "classes": classes, "branches_and_features": tags,
         "max_per_cell_delta_outside_exact_class": maxdelta,
@@ -1014,8 +1308,8 @@ def run(ctx):
                               "1+j/16 (j>=-8) or decimal; scale x8..x4096 on 6-12%",
         "extraction_crosschecked_by_vm_compute": nvm,
         "floating_point_tie": ftie,
-        "model_vs_impl_differences": len(diff), "impl_outputs_violating_statement": len(stmt),
-        "oracle_vs_model_differences": len(orc)})
+        "model_vs_impl_differences": len(diff) + len(sq_diff) + len(sq_hist), "impl_outputs_violating_statement": len(stmt) + len(sq_stmt),
+        "oracle_vs_model_differences": len(orc) + len(sq_orc)})
     return ctx.finish(LEVEL, cov, [
         "domain of the theorems: cell sizes >= 0 (the C++ does not reject negative sizes), caps >= 0",
         "the model Expand.v idealises floating point (exact rationals); ties are exact on the exact class and within the stated tolerance elsewhere",
@@ -1034,6 +1328,24 @@ def replay(ctx, path):
     case = r.get("case") or r["first_difference"]["case"]
     harness = common.build_harness("expand")
     driver = common.build_driver("expand")
+    if case.startswith("SQ "):
+        out, _, _ = common.run_both([harness, "run"], None, [case])
+        print("case :", case)
+        steps = split_sequence(out[0])
+        if steps is None:
+            print("impl :", out[0])
+            return 1
+        bad = 0
+        for i, (dl, rh, rf) in enumerate(steps):
+            _, model, _ = common.run_both([harness, "run"], [driver], [dl])
+            ev = EVAL[dl[:2]](dl, rh, model[0])
+            print("expansion call %d on the public state: %s" % (i + 1, dl))
+            print("  object with history:", rh)
+            print("  fresh circuit      :", rf, "" if rh == rf else "   <-- DIFFERENT")
+            print("  model              :", model[0])
+            print("  class:", ev.cls, " statement:", ev.stmt or "holds", " tie:", ev.diff or "agrees", " oracle:", ev.oracle or "agrees")
+            bad += 1 if (ev.stmt or ev.diff or ev.oracle or rh != rf) else 0
+        return 1 if bad else 0
     impl, model, _ = common.run_both([harness, "run"], [driver], [case])
     print("case :", case)
     print("impl :", impl[0])
